@@ -36,10 +36,8 @@ pub fn rec_from_radix_le(d: &[u8], radix: u32) -> Option<BigUint> {
         REC_RADIX = radix;
         REC_NDIG = d.len();
         let mut i = 0;
-        while i < 24 {
-            if i < d.len() {
-                REC_DIGITS[i] = d[i];
-            }
+        while i < d.len() && i < 24 {
+            REC_DIGITS[i] = d[i];
             i += 1;
         }
     }
@@ -66,10 +64,8 @@ fn rec_digits_value() -> u128 {
     let mut v: u128 = 0;
     let mut i = 0;
     unsafe {
-        while i < 18 {
-            if i < REC_NDIG {
-                v |= (REC_DIGITS[i] as u128) << (7 * i);
-            }
+        while i < REC_NDIG && i < 18 {
+            v |= (REC_DIGITS[i] as u128) << (7 * i);
             i += 1;
         }
     }
@@ -104,7 +100,7 @@ macro_rules! nat_dec_h {
                         assert!(REC_RADIX == 128, "unexpected radix");
                         let mut ok = true;
                         let mut k = 0;
-                        while k < 24 { if k < REC_NDIG && REC_DIGITS[k] >= 128 { ok = false; } k += 1; }
+                        while k < REC_NDIG && k < 24 { if REC_DIGITS[k] >= 128 { ok = false; } k += 1; }
                         assert!(ok, "digit out of range handed to from_radix_le");
                         assert!(rec_digits_value() == expect, "Nat::decode: bignum path value differs from the LEB128 value");
                     }
